@@ -40,8 +40,13 @@ def gen(rng, tier):
                                          adjust=rng.choice(['pre', 'none', 'post']), freq='1d'))
                     elif r < 0.4 and freq == '1m':
                         acts.append(dict(op='history_bars', id=oid, n=rng.choice([1, 3]), fields=None, skip=True, adjust='pre', freq='1m', now=rng.random() < 0.5))
-                    elif r < 0.55 and ph in ('open_auction', 'handle_bar'):
+                    elif r < 0.47 and ph in ('open_auction', 'handle_bar'):
                         acts.append(dict(op='bar', id=oid))
+                    elif r < 0.51 and ph in ('open_auction', 'handle_bar'):
+                        acts.append(dict(op='bar_mavg', id=oid, n=rng.choice([1, 2, 5])))
+                    elif r < 0.55:
+                        acts.append(dict(op='history_bars', id=oid, n=rng.choice([1, 2, 4]), fields=['datetime', 'close', 'volume'], skip=rng.random() < 0.5,
+                                         adjust=rng.choice(['pre', 'none']), freq='1w', now=rng.random() < 0.7))
                     elif r < 0.7:
                         acts.append(dict(op='snapshot', id=oid))
                     elif r < 0.9:
@@ -59,6 +64,24 @@ def gen(rng, tier):
             t = rng.choice([['before_trading'], ['before_trading'], None, ['open', rng.choice([0, 30, 120])]])
             regs.append(dict(kind='daily', time=t, tag='s%d' % k, act=act))
         scn['sched'] = regs
+    if rng.random() < 0.35:
+        # handlers registered with subscribe_event: they observe (and feed what they saw back into orders) while a phase event, its PRE_ / POST_
+        # bracket or an order / trade event is being published
+        subs = []
+        for k in range(rng.randint(1, 3)):
+            ev = rng.choice(['PRE_BEFORE_TRADING', 'BEFORE_TRADING', 'POST_BEFORE_TRADING', 'PRE_OPEN_AUCTION', 'OPEN_AUCTION', 'POST_OPEN_AUCTION',
+                             'PRE_BAR', 'POST_BAR', 'TRADE', 'ORDER_CREATION_PASS', 'ORDER_PENDING_NEW', 'POST_AFTER_TRADING', 'POST_SETTLEMENT'])
+            acts = []
+            for _ in range(rng.randint(1, 3)):
+                oid = rng.choice(ids)
+                acts.append(rng.choice([
+                    dict(op='history_bars', id=oid, n=rng.choice([1, 3]), fields=['datetime', 'close', 'volume'], skip=False, adjust='pre', freq='1d'),
+                    dict(op='history_bars', id=oid, n=2, fields=['datetime', 'close', 'volume'], skip=False, adjust='none', freq='1w', now=True),
+                    dict(op='snapshot', id=oid), dict(op='position', id=oid, dir='LONG'), dict(op='bar', id=oid), dict(op='bar_mavg', id=oid, n=2)]))
+            if ev not in ('TRADE', 'ORDER_CREATION_PASS', 'ORDER_PENDING_NEW') and rng.random() < 0.5:
+                acts.append(dict(op='feedback', ids=ids))       # an order placed from the handler (refused where the phase forbids it)
+            subs.append(dict(ev=ev, acts=acts, every=rng.choice([1, 1, 2])))
+        scn['subs'] = subs
     return scn
 
 
@@ -358,7 +381,8 @@ def work(item):
 
 _base = acct_prop.make(
     'C07', components=['view.'], clauses=['C07.'], gen=gen, analyser=analyse, prelude=PRELUDE, quick=(48, 4), thorough=(480, 12),
-    rule=('random observing strategies (bar_dict, current_snapshot, history_bars with every adjustment, positions never held, in every phase) that feed a '
+    rule=('random observing strategies (bar_dict, bar mavg / vwap, current_snapshot, daily and weekly history_bars with every adjustment, positions never held, in every '
+          'phase, in scheduled functions and in handlers registered with subscribe_event for phase, bracket, order and trade events) that feed a '
           'digest of everything observed back into their orders; (1) every recorded accessor call of daily runs is replayed through Model/View.v on the '
           'part of the history that exists at that moment (bars before the day; in the auction also the day\'s open / limits / volume; factor rows in '
           'effect); (2) two-world differential on the implementation: the same strategy on a second bundle whose bars, volumes, suspensions, dividends, '
@@ -370,4 +394,6 @@ _base = acct_prop.make(
                  'corporate actions count as dated by their announcement (dividends) / ex-date (splits); instrument reference data (listing, expiry) is static'])
 _base['work'] = work
 globals().update(_base)
-COQ = ['Model/Num.v', 'Model/Calendar.v', 'Model/View.v', 'Model/Check.v', 'Proofs/NumFacts.v', 'Proofs/CalendarFacts.v', 'Proofs/ViewFacts.v', 'Properties/C07.v']
+COQ = ['Model/Num.v', 'Model/Calendar.v', 'Model/View.v', 'Model/Phases.v', 'Model/Check.v', 'Proofs/NumFacts.v', 'Proofs/CalendarFacts.v', 'Proofs/ViewFacts.v', 'Proofs/PhasesFacts.v',
+       'Gen/ApiPhases.v', 'Properties/C07.v']
+GEN = ['ApiPhases']
